@@ -19,7 +19,7 @@ CHECKS = {
          "Trusts the harness reference codec (harness/src/refcodec.rs) as a faithful transcription of RFC 23.",
          "property-based testing (proptest) + exhaustive boundary grid, differential against a reference codec"),
  "C02": ("exploration",
-         "Metamorphic + differential: the library's real framed reader is driven over reference-encoded item sequences under ALL partitions of short streams, every cut / pair of cuts of medium streams and random partitions of long ones; items, end-of-stream kind and decoder state must equal the one-read run and an independent reference parse. Socket level: data sharing a segment with the end of the handshake must be the first recv for 7 socket types. Streams include messages of up to 400 frames and runs of up to 150 items (many decode steps per read); the socket-level check covers 8 socket types including PUB (a SUBSCRIBE glued to READY must be in force).",
+         "Metamorphic + differential: the library's real framed reader is driven over reference-encoded item sequences under ALL partitions of short streams, every cut / pair of cuts of medium streams and random partitions of long ones; items, end-of-stream kind and decoder state must equal the one-read run and an independent reference parse. Socket level: data sharing a segment with the end of the handshake must be the first recv for 7 socket types. Streams include messages of up to 400 frames and runs of up to 150 items (many decode steps per read); the socket-level check covers 8 socket types including PUB (a SUBSCRIBE glued to READY must be in force). Messages with frames of 2^20 - 1 / 2^20 / 2^20 + 1 bytes and 3 MiB (incomplete for hundreds of 8 KiB reads) are enumerated under six partitions.",
          "DESIGN.md §3 C02",
          "Trusts the reference parser; reads are capped at the framed reader's own 8 KiB buffer; exhaustive only for the stated stream lengths.",
          "property-based testing (proptest) + exhaustive partition enumeration; metamorphic (segmentation-invariance) and differential oracles"),
@@ -97,7 +97,7 @@ CHECKS = {
          "DESIGN.md §3 C18", "Duplicate binds use literal-IP / ipc endpoints; cases run on one thread.",
          "stateful (model-based) property-based testing on real transports"),
  "C20": ("fault_enumeration",
-         "Real bound sockets with a monitor; 1..4 raw clients stop at enumerated / random byte offsets of greeting+READY and then hold, close or send garbage, while well-behaved clients connect before, during and after and an established peer keeps exchanging; handshakes and exchanges must complete while stallers hold, each failed handshake yields exactly one AcceptFailed, Accepted events equal the well-behaved clients. Garbage at every offset, complete-but-invalid handshakes, a client stalling inside an announced 2^50-byte frame, 70..300 simultaneous stallers, strict rotation over exactly the admitted clients. Clients that are gone before accept() takes them from the backlog (TCP reset with SO_LINGER 0 or orderly close, with no await after connect) count as failed handshakes like any other. The monitor is installed before the bind, after it, or replaced after it. Complete-but-invalid handshakes include a READY with garbage after an intact Socket-Type property.",
+         "Real bound sockets with a monitor; 1..4 raw clients stop at enumerated / random byte offsets of greeting+READY and then hold, close or send garbage, while well-behaved clients connect before, during and after and an established peer keeps exchanging; handshakes and exchanges must complete while stallers hold, each failed handshake yields exactly one AcceptFailed, Accepted events equal the well-behaved clients. Garbage at every offset, complete-but-invalid handshakes, a client stalling inside an announced 2^50-byte frame, 70..300 simultaneous stallers, strict rotation over exactly the admitted clients. Clients that are gone before accept() takes them from the backlog (TCP reset with SO_LINGER 0 or orderly close, with no await after connect) count as failed handshakes like any other. The monitor is installed before the bind, after it, or replaced after it. Complete-but-invalid handshakes include a READY with garbage after an intact Socket-Type property. A refused handshake (incompatible or unknown Socket-Type) may present the announced identity of the ESTABLISHED peer, which must stay registered and keep exchanging.",
          "DESIGN.md §3 C20", "'Never completes' is a 5 s watchdog where ~1 ms is needed.",
          "fault enumeration (stall offset x action) on real transports + proptest; monitor-event and liveness oracle"),
 }
